@@ -24,7 +24,7 @@ DEQUE_DICT_METHODS = {"append", "appendleft", "popleft", "pop", "clear", "items"
 
 
 class St:
-    __slots__ = ("env", "heap", "events", "conds", "facts", "stack", "hits", "counter", "frames")
+    __slots__ = ("env", "heap", "events", "conds", "facts", "stack", "hits", "counter", "frames", "gen_callers", "consumer_exit")
 
     def __init__(self):
         self.env = {}
@@ -36,6 +36,8 @@ class St:
         self.hits = set()
         self.counter = [0]      # shared across forks: unique ids
         self.frames = ()        # quals of functions being inlined (recursion guard)
+        self.gen_callers = ()   # (env, stack, frames) of the loops consuming the generators being run
+        self.consumer_exit = None
 
     def fork(self):
         s = St.__new__(St)
@@ -48,6 +50,8 @@ class St:
         s.hits = set(self.hits)
         s.counter = self.counter
         s.frames = self.frames
+        s.gen_callers = self.gen_callers
+        s.consumer_exit = self.consumer_exit
         return s
 
     def uid(self):
@@ -57,9 +61,10 @@ class St:
 
 class Fx:
     """Per-frame context."""
-    __slots__ = ("func", "module", "cls", "selfterm", "outer_env")
+    __slots__ = ("func", "module", "cls", "selfterm", "outer_env", "on_yield")
 
     def __init__(self, func, selfterm, outer_env=None):
+        self.on_yield = None
         self.func = func
         self.module = func.module
         self.cls = func.cls if func.cls else (func.parent.cls if func.parent else None)
@@ -323,6 +328,17 @@ class Interp:
         if isinstance(n.value, ast.Constant):
             yield None, st
             return
+        if isinstance(n.value, ast.Yield) and fx.on_yield is not None:
+            # a generator being consumed by a for statement: the loop body runs here, with the yielded value
+            if n.value.value is None:
+                yield from fx.on_yield(NONE, st)
+                return
+            for r, t, s in self.ev(n.value.value, st, fx):
+                if r == "raise":
+                    yield ("raise", t), s
+                else:
+                    yield from fx.on_yield(t, s)
+            return
         for r, t, s in self.ev(n.value, st, fx):
             if r == "raise":
                 yield ("raise", t), s
@@ -356,9 +372,11 @@ class Interp:
 
     def s_FunctionDef(self, n, st, fx):
         fi = FuncInfo(n, fx.module, cls=None, parent=fx.func)
-        st.env[n.name] = ("closure", fi, id(n))
+        # one identity per creation: what the closure captured is what the enclosing frame held on this very path
+        cid = (id(n), st.uid())
+        st.env[n.name] = ("closure", fi, cid)
         self._closure_env = getattr(self, "_closure_env", {})
-        self._closure_env[id(n)] = (st.env, fx.selfterm, fi)
+        self._closure_env[cid] = (dict(st.env), fx.selfterm, fi)
         yield None, st
 
     def s_Import(self, n, st, fx):
